@@ -74,6 +74,7 @@ type Contract struct {
 	Atomic2   []string // "atomic mu": all critical sections of lock mu in this function form one atomic step
 	Holds     []string // lock fields of the receiver the caller holds ("holds mu" / "holds mu:r")
 	Unshared  bool     // object under construction: lockset checks off
+	EnsuresRecovered []Clause // must hold at exits reached through a recovered panic
 	GhostEntry []Clause // "ghost_entry x.f = expr": ghost assignments performed at function entry
 	GhostSet  []Clause // "ghost_assign x.f = expr": ghost assignments performed at every normal exit
 }
@@ -141,6 +142,7 @@ type GlobalInv struct {
 
 type SpecDB struct {
 	GlobalInvs []*GlobalInv
+	Stable     map[string]bool // "pkgpath.Type.field": written only while the object is under construction
 	Shared     map[string]*SharedDecl
 	Contracts map[string]*Contract
 	Pure      map[string]*PureFn // key: pkgpath.name and bare name for global ones
@@ -152,7 +154,7 @@ type SpecDB struct {
 }
 
 func NewSpecDB() *SpecDB {
-	return &SpecDB{Contracts: map[string]*Contract{}, Pure: map[string]*PureFn{}, Ghosts: map[string][]*GhostField{}, Locks: map[string]*LockDecl{}, Shared: map[string]*SharedDecl{}}
+	return &SpecDB{Contracts: map[string]*Contract{}, Pure: map[string]*PureFn{}, Ghosts: map[string][]*GhostField{}, Locks: map[string]*LockDecl{}, Shared: map[string]*SharedDecl{}, Stable: map[string]bool{}}
 }
 
 // qualify makes "Type.Method" or "Func" into a full key in pkg; names that already
@@ -231,6 +233,12 @@ func (db *SpecDB) LoadFile(path, pkgPath string) error {
 		case "end":
 			cur = nil
 			curShared = nil
+			continue
+		case "stable":
+			for _, f := range strings.Fields(rest) {
+				db.Stable[qualify(curPkg, f)] = true
+			}
+			cur = nil
 			continue
 		case "shared":
 			curShared = &SharedDecl{Owner: qualify(curPkg, strings.TrimSpace(rest)), Pkg: curPkg, File: path, Line: ln}
@@ -366,6 +374,8 @@ func (db *SpecDB) LoadFile(path, pkgPath string) error {
 			cur.Requires = append(cur.Requires, Clause{Kind: word, Text: rest, File: path, Line: ln, Name: label})
 		case "ensures":
 			cur.Ensures = append(cur.Ensures, Clause{Kind: word, Text: rest, File: path, Line: ln, Name: label})
+		case "ensures_recovered":
+			cur.EnsuresRecovered = append(cur.EnsuresRecovered, Clause{Kind: word, Text: rest, File: path, Line: ln, Name: label})
 		case "modifies":
 			cur.HasMod = true
 			for _, m := range splitTop(rest) {
